@@ -984,10 +984,10 @@ func prfCapLp(env *prfZkpEnv) {
 		r4 := must(prover.Round4(r3))
 		must0(verifier.Round5(r4))
 		n := fmt.Sprint(i)
-		add("lp.Round1Output", n, r1, nil, func(m *lp.Round1Output) error { return m.Validate(prover, 2) })
-		add("lp.Round2Output", n, r2, nil, func(m *lp.Round2Output) error { return m.Validate(verifier, 1) })
-		add("lp.Round3Output", n, r3, nil, func(m *lp.Round3Output) error { return m.Validate(prover, 2) })
-		add("lp.Round4Output", n, r4, nil, func(m *lp.Round4Output) error { return m.Validate(verifier, 1) })
+		addMsg("lp.Round1Output", n, r1, nil, func(m *lp.Round1Output) error { return m.Validate(prover, 2) })
+		addMsg("lp.Round2Output", n, r2, nil, func(m *lp.Round2Output) error { return m.Validate(verifier, 1) })
+		addMsg("lp.Round3Output", n, r3, nil, func(m *lp.Round3Output) error { return m.Validate(prover, 2) })
+		addMsg("lp.Round4Output", n, r4, nil, func(m *lp.Round4Output) error { return m.Validate(verifier, 1) })
 	}
 }
 
@@ -1016,8 +1016,8 @@ func prfCapLpdl(env *prfZkpEnv) {
 	r3 := must(verifier.Round3(r2))
 	r4 := must(prover.Round4(r3))
 	must0(verifier.Round5(r4))
-	add("lpdl.Round1Output[k256]", "0", r1, nil, func(m *lpdl.Round1Output[P, B, S]) error { return m.Validate(prover, 2) })
-	add("lpdl.Round2Output[k256]", "0", r2, nil, func(m *lpdl.Round2Output[P, B, S]) error { return m.Validate(verifier, 1) })
-	add("lpdl.Round3Output[k256]", "0", r3, nil, func(m *lpdl.Round3Output[P, B, S]) error { return m.Validate(prover, 2) })
-	add("lpdl.Round4Output[k256]", "0", r4, nil, func(m *lpdl.Round4Output[P, B, S]) error { return m.Validate(verifier, 1) })
+	addMsg("lpdl.Round1Output[k256]", "0", r1, nil, func(m *lpdl.Round1Output[P, B, S]) error { return m.Validate(prover, 2) })
+	addMsg("lpdl.Round2Output[k256]", "0", r2, nil, func(m *lpdl.Round2Output[P, B, S]) error { return m.Validate(verifier, 1) })
+	addMsg("lpdl.Round3Output[k256]", "0", r3, nil, func(m *lpdl.Round3Output[P, B, S]) error { return m.Validate(prover, 2) })
+	addMsg("lpdl.Round4Output[k256]", "0", r4, nil, func(m *lpdl.Round4Output[P, B, S]) error { return m.Validate(verifier, 1) })
 }
